@@ -7,6 +7,8 @@ import json, os, shutil, subprocess, sys, time
 seed = sys.argv[1].rstrip("/")
 props = sys.argv[2:]
 name = os.path.basename(seed).replace("seed_", "")
+if name.startswith("seedb_"):
+    name = name[len("seedb_"):] + "b"
 V = "/verif"
 patch = os.path.join(seed, "patch.diff")
 demo = os.path.join(seed, "demo.py")
